@@ -479,6 +479,61 @@ func runC08(c *mon.Ctx) {
 				}
 			}
 		}
+		// (a3) directed pairs of changes in one event (each of the two is looked at by its own piece of the rules; a slip
+		// that keys or counts them together shows only when both are there): a named threshold raised above the sender
+		// next to an entry of "events" for an event TYPE spelt like that threshold; a peer's "users" entry removed next
+		// to somebody else's entry added (the map keeps its size)
+		if c.Shard == 0 {
+			for _, thr := range []string{"ban", "kick", "invite", "redact", "events_default", "state_default", "users_default"} {
+				for _, where := range []string{"both", "proposed-only", "current-only"} {
+					base := func(withEntry bool, level int64) *ref.Value {
+						pc := ref.O("users", ref.O(other, ref.I(30), mod, ref.I(50)), "users_default", ref.I(10), "events", ref.O("m.room.power_levels", ref.I(0)))
+						if t.PLCreatorCheck {
+							pc.Get("users").Del(authUsers[0])
+							pc.Get("users").Del(authUsers[1])
+						}
+						pc.Set(thr, ref.I(level))
+						if withEntry {
+							pc.Get("events").Set(thr, ref.I(0))
+						}
+						return pc
+					}
+					cur := base(where != "proposed-only", 50)
+					proposed := base(where != "current-only", 75)
+					curEv := w.mustBuild("m.room.power_levels", strp(""), authUsers[0], cur)
+					name := fmt.Sprintf("pair:%s:threshold-raised-next-to-an-event-type-of-its-name:%s:%s", ver, thr, where)
+					c.Case(name, map[string]any{"version": ver, "sender": mod, "current": gen.Describe(cur), "proposed": gen.Describe(proposed)}, func() {
+						c.Nontrivial(name)
+						if _, ok := tryPL(c, w, curEv, proposed, mod, joined); ok {
+							checkNoEscalation(c, t, creators, cur, proposed, mod, name)
+						}
+					})
+				}
+			}
+			for _, peerLevel := range []int64{50, 75} {
+				cur := ref.O("users", ref.O(other, ref.I(peerLevel), mod, ref.I(50)), "users_default", ref.I(10), "events", ref.O("m.room.power_levels", ref.I(0)))
+				// (users_default raised to the peer's level keeps the peer's effective level for now - the next event lowers it)
+				ud := int64(10)
+				if peerLevel == 50 {
+					ud = 50
+				}
+				proposed := ref.O("users", ref.O(pleb, ref.I(20), mod, ref.I(50)), "users_default", ref.I(ud), "events", ref.O("m.room.power_levels", ref.I(0)))
+				if t.PLCreatorCheck {
+					for _, pc := range []*ref.Value{cur, proposed} {
+						pc.Get("users").Del(authUsers[0])
+						pc.Get("users").Del(authUsers[1])
+					}
+				}
+				curEv := w.mustBuild("m.room.power_levels", strp(""), authUsers[0], cur)
+				name := fmt.Sprintf("pair:%s:peer-removed-next-to-an-entry-added:%d", ver, peerLevel)
+				c.Case(name, map[string]any{"version": ver, "sender": mod, "current": gen.Describe(cur), "proposed": gen.Describe(proposed)}, func() {
+					c.Nontrivial(name)
+					if _, ok := tryPL(c, w, curEv, proposed, mod, joined); ok {
+						checkNoEscalation(c, t, creators, cur, proposed, mod, name)
+					}
+				})
+			}
+		}
 		// (a2) versions in which creators stand above the power levels: an event that names one of them in users, with
 		// whatever level (the one creators have anyway included), as the room's first power-levels event or a later one
 		if t.PLCreatorCheck {
